@@ -482,6 +482,9 @@ func spec_removedIn(fx []spec_Effect, x string) bool {
 //@   loop 3 invariant p != nil && pkgCtx != nil && pkgCtx.pkg == p && pkgCtx.args == c.args && pkgCtx.universe == c.universe && l != nil && spec_pkgOK(c.universe, p) && p == c.universe.Package(pkg)
 //@   loop 3 invariant forall i int :: 0 <= i && i < len(spec_mapVals(gfs)) ==> spec_goodGenfile(spec_mapVals(gfs)[i])
 //@   loop 3 invariant forall i int, j int :: len(old(spec_calls())) <= i && i < len(spec_calls()) && 0 <= j && j < len(generators) && (spec_calls()[i].Kind == spec_GenType || spec_calls()[i].Kind == spec_GenAlias) ==> spec_calls()[i].Gen != generators[j]
+//@   loop 3 ensures done4
+//@   note (loop 3 ensures, C06 "callbacks registered with Defer run exactly once each, after the package's last GenerateType and before its file is written") every complete iteration of the generator loop - whether or not anything was rendered - has run the loop over the generator's deferred callbacks to its normal end; loop 4's invariant says that loop calls exactly the registered callbacks, in order, once each
+//@   loop 4 invariant len(spec_calls()) == entry(len(spec_calls())) + it4 && (forall j int :: 0 <= j && j < it4 ==> spec_calls()[entry(len(spec_calls()))+j].Kind == 3 && spec_calls()[entry(len(spec_calls()))+j].Obj == any(xs4[j]))
 //@   note loops 4-6 (defers, writes, removals) are annotated below
 //@   loop 4 assume forall i int :: 0 <= i && i < len(xs4) ==> xs4[i] != nil
 //@   note (loop 4 assume) callbacks registered with Defer are non-nil functions
